@@ -141,43 +141,48 @@ def run(repo, rep, tier):
     getitem = repo.func("containers.py", "ItemsList.__getitem__")
     key = getitem.args.args[1].arg
 
-    # ---- R1 index bounds
-    ga = GuardAnalysis(getitem, env=repo.consts)
-    subs = [
-        n for n in body_walk(getitem)
-        if isinstance(n, ast.Subscript) and U(n.value) == "self._items" and isinstance(n.ctx, ast.Load) and isinstance(n.slice, ast.Name)
-        and not any(isinstance(p_, (ast.For, ast.ListComp, ast.GeneratorExp)) and any(isinstance(x, ast.Name) and x.id == n.slice.id for x in ast.walk(getattr(p_, "target", p_)))
-                    for p_ in ancestors(n))
-    ]
-    if not subs:
-        raise AnalysisError("ItemsList.__getitem__: subscript self._items[<index>] not found")
-    idx_names = {U(n.slice) for n in subs}
-    # the index is the key itself or a local initialised from it
-    for v_ in sorted(idx_names - {key}):
-        inits = [n for n in body_walk(getitem) if isinstance(n, ast.Assign) and U(n.targets[0]) == v_]
-        if not (inits and all(U(n.value) == key for n in inits)):
-            raise AnalysisError(f"ItemsList.__getitem__: index `{v_}` is not the key")
-    for sub in subs:
-        facts = ga.facts_at(sub)
-        k = lin(sub.slice)
-        n_items = Lin(0, {"len(self._items)": 1})
-        lo = facts is not None and facts.entails(k)
-        hi = facts is not None and facts.entails(n_items - k - Lin(1))
-        rep.ob("C19.R1", sub, f"{U(sub)}: lower bound {key} >= 0", lo,
-               "" if lo else f"no guard establishes {key} >= 0 after `{key} += len(...)`: an index below -len wraps around (facts: {facts})",
-               key="C19.R1@getitem:lower")
-        rep.ob("C19.R1", sub, f"{U(sub)}: upper bound {key} <= len-1", hi,
-               "" if hi else f"no guard establishes {key} < len(self._items) (facts: {facts})", key="C19.R1@getitem:upper")
-    # the out-of-range exit must be IndexError
+    # ---- R1 index bounds: the function summary asked with every integer key around the ends of lists of 0, 1 and 3 items
+    from ..funsum import Summarizer as _Summ, decide as _decide, cval as _cval, _UNKNOWN as _UNK
+    gpaths = _Summ(consts=repo.consts).summarize(getitem)
+    low_bad, up_bad, norm_bad, exc_bad = [], [], [], []
+    n_sc = 0
+    for n_items in (0, 1, 3):
+        for k in range(-n_items - 2, n_items + 2):
+            sc = {key: k, "len(self._items)": n_items, f"isinstance({key}, int)": True, f"isinstance({key}, str)": False, f"type({key}) is int": True,
+                  f"isinstance({key}, (int, str))": True, f"isinstance({key}, (str, int))": True}
+            try:
+                outs = _decide(gpaths, sc, limit=4)
+            except AnalysisError as e_:
+                raise AnalysisError(f"ItemsList.__getitem__: {e_}") from e_
+            n_sc += 1
+            in_range = -n_items <= k < n_items
+            for _fx, kind_, text_, pth in outs:
+                where = f"key {k} with {n_items} item(s)"
+                if in_range:
+                    want = k % n_items
+                    got = None
+                    if kind_ == "return" and isinstance(pth.ret, ast.AST):
+                        from ..funsum import simplify as _simp
+                        r_ = _simp(pth.ret, sc)
+                        if isinstance(r_, ast.Subscript) and U(r_.value) == "self._items" and not isinstance(r_.slice, ast.Slice):
+                            v_ = _cval(r_.slice, sc)
+                            got = None if v_ is _UNK else v_
+                    if got not in (want, want - n_items):
+                        (norm_bad if k < 0 else up_bad).append(f"{where}: {kind_}s `{text_}`" + (f" = item {got}" if got is not None else "") + f" instead of item {want}")
+                else:
+                    is_index_error = kind_ == "raise" and text_ is not None and text_.startswith("IndexError")
+                    if kind_ == "return":
+                        (low_bad if k < 0 else up_bad).append(f"{where}: returns `{text_}` instead of raising IndexError" + (" (an index below -len wraps around)" if k < 0 else ""))
+                    elif not is_index_error:
+                        exc_bad.append(f"{where}: raises `{(text_ or '')[:40]}` instead of IndexError")
+    rep.ob("C19.R1", getitem, f"self._items[{key}]: lower bound {key} >= -len ({n_sc} keys around the ends of 0, 1 and 3 items)", not low_bad, "; ".join(low_bad[:2]), key="C19.R1@getitem:lower")
+    rep.ob("C19.R1", getitem, f"self._items[{key}]: upper bound {key} <= len-1", not up_bad, "; ".join(up_bad[:2]), key="C19.R1@getitem:upper")
+    # the out-of-range exit must be IndexError, an unknown name KeyError
     raises = [n for n in body_walk(getitem) if isinstance(n, ast.Raise)]
     types = [call_name(r.exc) if isinstance(r.exc, ast.Call) else U(r.exc) for r in raises]
-    rep.ob("C19.R1", getitem, f"raises {types}", "IndexError" in types and "KeyError" in types,
-           "out-of-range index must raise IndexError and unknown name KeyError", key="C19.R1@getitem:raises")
-    # negative normalisation adds len exactly
-    norm = [n for n in body_walk(getitem) if isinstance(n, ast.AugAssign) and U(n.target) in (idx_names | {key})]
-    okn = all(isinstance(n.op, ast.Add) and U(n.value) == "len(self._items)" for n in norm)
-    rep.ob("C19.R1", norm[0] if norm else getitem, "negative index normalised by + len(self._items)", okn and len(norm) <= 1, "",
-           key="C19.R1@getitem:normalise")
+    rep.ob("C19.R1", getitem, f"raises {types}", not exc_bad and "IndexError" in types and "KeyError" in types,
+           "; ".join(exc_bad[:2]) or "out-of-range index must raise IndexError and unknown name KeyError", key="C19.R1@getitem:raises")
+    rep.ob("C19.R1", getitem, "negative index normalised by + len(self._items)", not norm_bad, "; ".join(norm_bad[:2]), key="C19.R1@getitem:normalise")
 
     # ---- R2 membership folds case on both sides; name lookup is exact
     contains = repo.func("containers.py", "ItemsList.__contains__")
